@@ -224,6 +224,9 @@ for _pid, _cfg in PROPS.items():
 # handlers mutate the table's field objects in place (the reported dict was built before the ALTER and shares them)
 for _pid in ("C04", "C03"):
     PROPS[_pid]["frames"].append("alter-handlers-mutate-in-place")
+# what a mode's table class may touch
+for _pid in ("C10", "C02", "C01", "C12"):
+    PROPS[_pid]["frames"].append("mode-hooks-leave-common-fields-alone")
 # the dump step receives the very object run() returns
 for _pid in ("C12", "C13", "C14", "C19"):
     PROPS[_pid]["frames"].append("dump-leaves-result-alone")
